@@ -150,6 +150,23 @@ def triangulateEarClipping (pts : Array (V2 K)) : Option (Array (Nat × Nat × N
         if cornerDirection (pt pts vi.prev) (pt pts i) (pt pts vi.next) = .ccw then some (out.push (vi.prev, i, vi.next))
         else none
 
+/-- result of `TriMesh::from_polygon(vertices)` as observed through the mesh it builds -/
+inductive FromPolygon (K : Type) where
+  | none                                                  -- `triangulate_ear_clipping` returned `None`
+  | panicEmptyIndices                                     -- `TriMesh::new(..).unwrap()` on `Err(EmptyIndices)`
+  | mesh (vertices : Array (V2 K)) (flat : Array Nat)     -- `vertices()`, `flat_indices()`
+
+/-- `TriMesh::from_polygon(vertices)`:
+`triangulate_ear_clipping(&vertices).map(|indices| Self::new(vertices, indices).unwrap())`; `TriMesh::new` fails only on an
+empty index buffer (`EmptyIndices`), the vertex buffer is moved in unchanged and `flat_indices()` is the `[u32; 3]` buffer
+viewed as `[u32]` (the indices are produced by `as u32` casts of `usize` positions `< n`). -/
+def fromPolygonMesh (pts : Array (V2 K)) : FromPolygon K :=
+  match triangulateEarClipping pts with
+  | none => .none
+  | some t =>
+    if t.size = 0 then .panicEmptyIndices
+    else .mesh pts (t.foldl (fun acc x => acc ++ #[x.1, x.2.1, x.2.2]) #[])
+
 /-! ## Hertel–Mehlhorn -/
 
 /-- `find_edge_index_in_polygon(p1, p2, indices)` -/
